@@ -223,6 +223,7 @@ impl Runner {
                 w.outcomes.push("keygen-burst".into());
             }
             Ev::PqBinding { user, slot } => w.ev_pq_binding(*user, *slot),
+            Ev::RaiseTracing => w.ev_raise_tracing(),
             Ev::EncryptOtherThread { enc, pol, n } => w.ev_encrypt_other_thread(*enc, pol, *n),
         }
         if w.outcomes.len() == n_out {
